@@ -339,3 +339,47 @@ def replay_h_page_v1_nested(rep, levels, page_bytes):
     from vf.pyxlift import nested_file
     want = _dremel(list(levels), list(rep))
     return nested_file.replay_list(list(levels), list(rep), [], True, True, 3, want)
+
+
+# ------------------------------------------------------------------------------------------------------
+# _read_page takes exactly the page's bytes from the chunk, whatever their number - also none at all (the dictionary
+# page of a chunk without values; NumpyIO.read(x) with x < 1 hands back everything that is left: the class's contract)
+class _ChunkIO:
+    def __init__(self, n):
+        self.n, self.loc = n, 0
+
+    def read(self, x=-1):
+        if x < 1:
+            x = self.n - self.loc
+        a = self.loc
+        self.loc += x
+        return ("bytes", a, a + x)
+
+
+def h_read_page_consumes(size: int, left: int, usize: int) -> bool:
+    """
+    pre: 0 <= size <= left < 2147483648 and 0 <= usize < 2147483648
+    post: __return__
+    """
+    ph = parquet_thrift.PageHeader(type=2, compressed_page_size=size, uncompressed_page_size=usize)
+    md = parquet_thrift.ColumnMetaData(type=2, path_in_schema=["x"], codec=0)
+    f = _ChunkIO(left)
+    saved = core.decompress_data
+    core.decompress_data = lambda data, n, codec: data
+    try:
+        out = core._read_page(f, ph, md)
+    finally:
+        core.decompress_data = saved
+    got = 0 if isinstance(out, bytes) and out == b"" else (out[2] - out[1] if isinstance(out, tuple) else -1)
+    return f.loc == size and got == size
+
+
+def replay_h_read_page_consumes(size, left, usize):
+    """a LIST column chunk without a single value (three empty lists): its dictionary page is empty"""
+    from vf.pyxlift import nested_file
+    for version, encs in ((2, None), (1, "d")):
+        r = nested_file.replay_list([1, 1, 1], [0, 0, 0], [], True, True, 3, [[], [], []], version=version,
+                                    encs=encs)
+        if r[0]:
+            return True, "a page of %d bytes with %d bytes left in the chunk - %s" % (size, left, r[1])
+    return r
